@@ -20,8 +20,6 @@
 import CatVerif.Spec.Resp
 import CatVerif.Proofs.Log
 import CatVerif.Proofs.Graph
-import CatVerif.Proofs.Steps.Loops
-import CatVerif.Proofs.Steps.ByFsm
 namespace Cat
 open St Spec
 
@@ -130,21 +128,5 @@ theorem C10_varcb_abort_event (D : Desc) (s : St) (i : SvcIn) (hs : s.ustate = .
 
 /-- non-vacuity: DATA_NEXT from a read handler of the command machine -/
 example : respSpec .read .cmd 1 = .dataThenAgain ∧ Gen.process_read_loop 1 .cmd = [.startFlush .fmtRead] := by decide
-
-/-- the four handler loops are: call the handler, perform the calls the generated return-code table lists for its
-answer, return BUSY — the shape re-recognised in the source on every run (translator item T19; the tables are T3) -/
-theorem C10_loops_generated (D : Desc) (s : St) (f : Fsm) (i : SvcIn) :
-    processWriteLoop D s i = Gen.process_write_loop_fn D s i ∧ processRunLoop D s i = Gen.process_run_loop_fn D s i ∧
-    processReadLoop D s f i = Gen.process_read_loop_fn D s f i ∧ processTestLoop D s f i = Gen.process_test_loop_fn D s f i :=
-  ⟨rfl, rfl, rfl, rfl⟩
-
-/-- what the table entries do — finish with OK or ERROR, restart the automatic text — is translated from
-`end_processing_with_ok`, `end_processing_with_error`, `start_processing_format_read_args` and
-`start_processing_format_test_args` of the source on every run (translator item T12) -/
-theorem C10_calls_generated (D : Desc) (s : St) (f : Fsm) :
-    endOk D s f = Gen.end_processing_with_ok D s f ∧ endError D s f = Gen.end_processing_with_error D s f ∧
-    startFormatRead D s f = Gen.start_processing_format_read_args D s f ∧
-    startFormatTest D s f = Gen.start_processing_format_test_args D s f :=
-  ⟨endOk_generated D s f, endError_generated D s f, startFormatRead_generated D s f, startFormatTest_generated D s f⟩
 
 end Cat
